@@ -84,7 +84,7 @@ def gen(rng, tier):
   for i in range(3):
     config.append('MAC%d = %d' % (i, 700 + i))
   ctor_yields = rng.randint(0, 3)
-  mk_kind = rng.choice(['tok', 'tok', 'empty_list', 'falsy'])
+  mk_kind = rng.choice(['tok', 'tok', 'empty_list', 'falsy', 'none'])
   # fault injection: the first construction attempt(s) of one singleton raise
   ctor_fault = None
   if rng.random() < 0.3:
@@ -223,8 +223,12 @@ def _execute(case, mode, length_hints=None):
         tok = _TaggedList(tok.serial)
       elif kind == 'falsy':
         tok = _Falsy(tok.serial)
+      elif kind == 'none':
+        # (a set-up function that returns nothing: the singleton IS None)
+        serial_none = tok.serial
+        tok = None
       log.add('construct', state['phase'], tid, gin.current_scope_str(),
-              tok.serial)
+              tok.serial if tok is not None else serial_none)
       for _ in range(case.get('ctor_yields', 0)):
         if s is not None:
           s.yield_point('ctor')
@@ -470,6 +474,8 @@ def run(case):
   for pi, b in enumerate(got['phases']):
     for key, serial, ti in b['deliveries']:
       for pj, other in seen.items():
+        if case.get('mk_kind') == 'none':
+          continue   # every None is the same object: identity says nothing
         if pj < pi and case['phases'][pj].get('clear_after') and \
             (key, serial) in other:
           v('C18.clear_forgets', ['object-survived-clear'],
